@@ -159,32 +159,29 @@ CeilN(m)  == [neg |-> m.neg, ip |-> IF ~m.neg /\ m.fp # <<>> THEN Inc(m.ip) ELSE
 IntString(r) == IF r.ip = <<>> THEN StrZero ELSE (IF r.neg THEN <<CMinus>> ELSE <<>>) \o Chars(r.ip)
 
 (* ---- exact binary expansion ------------------------------------------------------------------ *)
-(* d div 2 and d mod 2 on digit sequences *)
-RECURSIVE HalfR(_, _, _, _)
-HalfR(d, i, carry, acc) ==
-  IF i > Len(d) THEN [q |-> acc, r |-> carry]
-  ELSE LET x == carry * 10 + d[i] IN HalfR(d, i + 1, x % 2, Append(acc, x \div 2))
+(* d div 2 and d mod 2 on digit sequences.  Both halving and doubling are local: the carry into a  *)
+(* digit depends on its neighbour only (10 * carry is even; 2 * d + carry >= 10 iff d >= 5).       *)
+Half(d) == [q |-> [i \in 1..Len(d) |-> ((IF i > 1 THEN d[i - 1] % 2 ELSE 0) * 10 + d[i]) \div 2],
+            r |-> IF d = <<>> THEN 0 ELSE d[Len(d)] % 2]
 RECURSIVE IntBitsR(_, _)
 IntBitsR(d, acc) ==          \* d without leading zeros; most significant bit first
   IF d = <<>> THEN acc
-  ELSE LET h == HalfR(d, 1, 0, <<>>) IN IntBitsR(StripLead(h.q), <<h.r>> \o acc)
+  ELSE LET h == Half(d) IN IntBitsR(StripLead(h.q), <<h.r>> \o acc)
 IntBits(ip) == IntBitsR(ip, <<>>)
 
 (* 2 * 0.d = c + 0.d' *)
-RECURSIVE DblR(_, _, _, _)
-DblR(d, i, carry, acc) ==
-  IF i = 0 THEN [d |-> acc, c |-> carry]
-  ELSE LET x == 2 * d[i] + carry IN DblR(d, i - 1, x \div 10, <<x % 10>> \o acc)
+Dbl(d) == [d |-> [i \in 1..Len(d) |-> (2 * d[i] + (IF i < Len(d) /\ d[i + 1] >= 5 THEN 1 ELSE 0)) % 10],
+           c |-> IF d # <<>> /\ d[1] >= 5 THEN 1 ELSE 0]
 RECURSIVE FracBitsR(_, _, _)
 FracBitsR(d, n, acc) ==      \* at most n binary digits of 0.d; done = the expansion terminated
   IF \A i \in 1..Len(d) : d[i] = 0 THEN [bits |-> acc, done |-> TRUE]
   ELSE IF n = 0 THEN [bits |-> acc, done |-> FALSE]
-  ELSE LET x == DblR(d, Len(d), 0, <<>>) IN FracBitsR(x.d, n - 1, Append(acc, x.c))
+  ELSE LET x == Dbl(d) IN FracBitsR(x.d, n - 1, Append(acc, x.c))
 
-(* Decided only for numerals of bounded size (<= 40 integer digits, <= 1100 fraction digits); a   *)
+(* Decided only for numerals of bounded size (<= 40 integer digits, <= 160 fraction digits); a    *)
 (* k-digit decimal fraction is dyadic iff k doublings clear it, and then its last digit is 5.      *)
 BinaryOf(m) ==
-  IF Len(m.ip) > 40 \/ Len(m.fp) > 1100 \/ (m.fp # <<>> /\ m.fp[Len(m.fp)] # 5)
+  IF Len(m.ip) > 40 \/ Len(m.fp) > 160 \/ (m.fp # <<>> /\ m.fp[Len(m.fp)] # 5)
   THEN [known |-> FALSE]
   ELSE LET fb == FracBitsR(m.fp, Len(m.fp), <<>>) IN
        IF ~fb.done THEN [known |-> FALSE]
